@@ -54,15 +54,23 @@ Section HybridFacts.
     elec_imbalance to_shaft to_elec i == h_e0 i - to_elec (s2 to_shaft i).
   Proof.
     intros H. unfold shaft_imbalance, elec_imbalance, shaft_final, elec_final, elec_balanced_with,
-      shaft_balanced_with, e2. rewrite H. split; ring.
+      shaft_balanced_with, e2. rewrite H. cbn [andb]. split; ring.
   Qed.
 
   Theorem hybrid_full_pti i : h_any_full i = true ->
     elec_imbalance to_shaft to_elec i == 0 /\
-    shaft_imbalance to_shaft to_elec i == to_shaft (to_elec (s2 to_shaft i)) - s2 to_shaft i.
+    shaft_imbalance to_shaft to_elec i == to_shaft (elec_final to_shaft to_elec i) - s2 to_shaft i.
   Proof.
-    intros H. unfold shaft_imbalance, elec_imbalance, shaft_final, elec_final, elec_balanced_with,
-      shaft_balanced_with, e2. rewrite H. split; ring.
+    intros H. unfold shaft_imbalance, elec_imbalance, shaft_final, elec_balanced_with, shaft_balanced_with.
+    rewrite H. split; ring.
+  Qed.
+
+  (* a step at which the machine shares the load with the sources (not a full-PTI step): both sides exact *)
+  Theorem hybrid_load_sharing_step i : h_any_full i = true -> h_bal i = true -> h_full i = false ->
+    elec_imbalance to_shaft to_elec i == 0 /\ shaft_imbalance to_shaft to_elec i == 0.
+  Proof.
+    intros A B F. destruct (hybrid_full_pti i A) as [E S]. split; [exact E|]. rewrite S.
+    unfold elec_final, s2, s1. rewrite A, B, F. cbn [andb]. ring.
   Qed.
 
   (* if both compositions of the machine's conversions are within eps of the identity, both balances
@@ -70,12 +78,15 @@ Section HybridFacts.
   Theorem hybrid_both_within_eps i eps :
     (forall x, Qabs (to_shaft (to_elec x) - x) <= eps) ->
     (forall x, Qabs (to_elec (to_shaft x) - x) <= eps) ->
-    (h_full i = false \/ h_any_full i = true) ->
+    (h_full i = false \/ h_any_full i = true) -> (h_bal i = true -> h_full i = false) ->
     Qabs (elec_imbalance to_shaft to_elec i) <= eps /\ Qabs (shaft_imbalance to_shaft to_elec i) <= eps.
   Proof.
-    intros H1 H2 Hc. assert (He : 0 <= eps) by (apply Qle_trans with (Qabs (to_shaft (to_elec 0) - 0)); [apply Qabs_nonneg|apply H1]).
+    intros H1 H2 Hc Hb. assert (He : 0 <= eps) by (apply Qle_trans with (Qabs (to_shaft (to_elec 0) - 0)); [apply Qabs_nonneg|apply H1]).
     destruct (h_any_full i) eqn:A.
-    - destruct (hybrid_full_pti i A) as [E S]. rewrite E, S. split; [cbn; exact He|apply H1].
+    - destruct (h_bal i) eqn:B.
+      + destruct (hybrid_load_sharing_step i A B (Hb eq_refl)) as [E S]. rewrite E, S. split; cbn; exact He.
+      + destruct (hybrid_full_pti i A) as [E S]. rewrite E, S. split; [cbn; exact He|].
+        unfold elec_final. rewrite A, B. cbn [andb]. unfold e2. apply H1.
     - destruct (hybrid_no_full_pti i A) as [S E]. rewrite E, S. split; [|cbn; exact He].
       destruct Hc as [Hf|Hf]; [|discriminate]. unfold s2, s1. rewrite Hf.
       specialize (H2 (h_e0 i)). rewrite <- Qabs_opp.
@@ -83,16 +94,18 @@ Section HybridFacts.
       rewrite X. exact H2.
   Qed.
 
-  (* the two powers of the machine differ only by its conversion: the electrical power is always the
-     conversion of the shaft power the shaft side was balanced with; in a full-PTI step that shaft
-     power is the whole shaft load *)
+  (* the two powers of the machine differ only by its conversion: unless a second electric pass rewrote
+     the balancing power of a load-sharing machine, the electrical power is the conversion of the shaft
+     power the shaft side was balanced with; in a full-PTI step that shaft power is the whole shaft load;
+     after a second electric pass the shaft power is the conversion of the electrical power *)
   Theorem hybrid_loss i :
-    elec_final to_shaft to_elec i = to_elec (shaft_balanced_with to_shaft i) /\
-    (h_full i = true -> shaft_balanced_with to_shaft i = h_load i /\
+    (h_any_full i && h_bal i = false -> elec_final to_shaft to_elec i = to_elec (shaft_balanced_with to_shaft i)) /\
+    (h_full i = true -> h_bal i = false -> shaft_balanced_with to_shaft i = h_load i /\
                         elec_final to_shaft to_elec i = to_elec (h_load i)) /\
     (h_any_full i = true -> shaft_final to_shaft to_elec i = to_shaft (elec_final to_shaft to_elec i)).
   Proof.
-    unfold elec_final, e2, shaft_balanced_with, shaft_final, s2.
-    split; [reflexivity|]. split; [intros F; rewrite F; split; reflexivity|intros A; rewrite A; reflexivity].
+    split; [intros E; unfold elec_final, e2, shaft_balanced_with; rewrite E; reflexivity|].
+    split; [intros F B; unfold elec_final, e2, shaft_balanced_with, s2; rewrite F, B, andb_false_r; split; reflexivity|].
+    intros A. unfold shaft_final. rewrite A. reflexivity.
   Qed.
 End HybridFacts.
